@@ -37,7 +37,8 @@ def suites(wt, env):
 def demo(wt, env, demo_src, testname):
     dst = os.path.join(wt, "tests", "zz_seed_demo_test.go")
     shutil.copy(demo_src, dst)
-    rc, out = sh("go test -vet=off -count=1 -run '^%s$' . 2>&1 | tail -30" % testname, cwd=os.path.join(wt, "tests"), env=env)
+    race = "-race " if re.search(r"go test[^\n]*-race", open(demo_src).read()) else ""  # the demo says it needs the race detector
+    rc, out = sh("go test %s-vet=off -count=1 -run '^%s$' . 2>&1 | tail -30" % (race, testname), cwd=os.path.join(wt, "tests"), env=env)
     os.remove(dst)
     passed = re.search(r"^ok\s", out, re.M) is not None and "FAIL" not in out
     return passed, out[-1500:]
